@@ -11,7 +11,7 @@ def sh(cmd, cwd=None, env=None):
 MODES = {'req': ('emit_req_v', 'ReqKernels.v', 'BridgeReq.v'), 'scan': ('emit_scan_v', 'ScanKernels.v', 'BridgeScan.v'),
          'cfg': ('emit_cfgobj_v', 'CfgKernels.v', 'BridgeCfgObj.v'), 'items': ('emit_items_v', 'ItemKernels.v', 'BridgeItems.v'), 'gpsd': ('emit_gpsd_v', 'GpsdKernels.v', 'BridgeGpsd.v'),
          'valget': ('emit_valget_v', 'ValgetKernels.v', 'BridgeValget.v'),
-         'helpers': ('emit_helpers_v', 'HelperKernels.v', 'BridgeHelpers.v'), 'gnss': ('emit_gnss_v', 'GnssKernels.v', 'BridgeGnss.v')}
+         'helpers': ('emit_helpers_v', 'HelperKernels.v', 'BridgeHelpers.v'), 'gnss': ('emit_gnss_v', 'GnssKernels.v', 'BridgeGnss.v'), 'lever': ('emit_lever_v', 'LeverKernels.v', 'BridgeLever.v')}
 
 
 def one(patch, mode='req'):
@@ -57,6 +57,6 @@ def one(patch, mode='req'):
         shutil.rmtree(gen, ignore_errors=True)
 
 if __name__ == '__main__':
-    mode = 'scan' if '--scan' in sys.argv else 'cfg' if '--cfg' in sys.argv else 'items' if '--items' in sys.argv else 'gpsd' if '--gpsd' in sys.argv else 'valget' if '--valget' in sys.argv else 'helpers' if '--helpers' in sys.argv else 'gnss' if '--gnss' in sys.argv else 'req'
+    mode = 'scan' if '--scan' in sys.argv else 'cfg' if '--cfg' in sys.argv else 'items' if '--items' in sys.argv else 'gpsd' if '--gpsd' in sys.argv else 'valget' if '--valget' in sys.argv else 'helpers' if '--helpers' in sys.argv else 'gnss' if '--gnss' in sys.argv else 'lever' if '--lever' in sys.argv else 'req'
     for p in [a for a in sys.argv[1:] if not a.startswith('--')]:
         print(p, '->', one(os.path.abspath(p), mode), flush=True)
